@@ -285,6 +285,11 @@ def r4_dedup(cx):
     cx.ob("R4", "R4/key-is-hash-of-whole-content", ok, g, "the cache key is the finalised Blake3 of the whole content (read_to_end + update, or update_reader then rewind before the content is handed on)")
 
 
+# without any compression feature the Compression enum has a single variant: the compressed path does not exist
+WITH_COMPRESSION = ("lib-all3", "lib-default", "all-bins", "lib-release")
+r1_decision_table.only_configs = WITH_COMPRESSION
+r2_flag_carried.only_configs = WITH_COMPRESSION
+
 RULES = [
     ("R1", r1_decision_table, 6),
     ("R2", r2_flag_carried, 6),
